@@ -109,7 +109,8 @@ PROPS = {
         "stages": [{"driver": "hist", "stage": "hist-tagged", "flavour": "asan"}, {"driver": "hist", "stage": "corpus-tagged", "flavour": "asan"},
                    {"driver": "hist", "stage": "hist-arena", "flavour": "wrap"}, {"driver": "hist", "stage": "corpus-arena", "flavour": "wrap"},
                    {"driver": "hist", "stage": "hist-tagged-plain", "flavour": "plain-O2"},
-                   {"driver": "hist", "stage": "corpus-count", "flavour": "asan"}],
+                   {"driver": "hist", "stage": "corpus-count", "flavour": "asan"},
+                   {"driver": "hist", "stage": "corpus-count-zeronull", "flavour": "asan", "budget": {"quick": 3000, "thorough": 30000}}],
     },
     "C06": {
         "level": "fault_enumeration",
